@@ -93,6 +93,44 @@ CHECKS = {
         "with boundary-biased operands; results that do not fit the width are outside the property.",
    technique="TLA+ transcription of BigInt refined against the mathematical integer (TLC exhaustive); state-graph replay; TLC relational batch oracle on byte-level naturals",
    design="6 (C19), appendix A.3"),
+ "C05": dict(
+   text="The cursor machine of JSON.hpp / UnEscape is transcribed into TLA+ (QJsonImpl) with every content[offset] read recorded; TLC "
+        "decides ReadInBounds (and AllOrNothing / Complete / SameValue against the grammar specification) for every text of length <= 6 "
+        "(quick, 1.1M texts) / 7 (thorough, 11M) over 10 symbol classes. The same enumerated texts (<= 5 / 6) and random documents with "
+        "every proper prefix, 11 one-unit suffixes and every structural bracket swapped / dropped are parsed by the real code from "
+        "exact-size unterminated heap buffers in three character widths under ASan+UBSan with a per-case alarm; TLC judges each recorded "
+        "result (Undefined or a complete value). Nesting of 512 / 513 / 2000 levels is parsed with the default stack.",
+   note="memory errors and termination in the real code are sensed by ASan/UBSan/alarm on spec-generated inputs, decided by TLC only "
+        "on the transcription; wchar_t and the SIMD variants are not part of the quick tier.",
+   technique="TLA+ transcription of the JSON cursor machine checked by TLC (ReadInBounds); sanitizer runs on enumerated / mutated inputs; TLC batch oracle",
+   design="6 (C05), appendix A.1"),
+ "C06": dict(
+   text="RFC 8259 is an explicit TLA+ recognizer with denotation (QJsonGrammar: whitespace, all escapes incl. surrogate pairs decoded through "
+        "QUnicode for the target width, numerals with exact small values, duplicate keys = last value at the first position). TLC checks "
+        "Complete / SameValue of the parser transcription for every text <= 6/7 over 10 symbols, and judges every parse result recorded "
+        "from the real code on random documents x spellings x UTF-8/16/32 and on the enumerated texts: every document of the grammar is "
+        "accepted and yields the denoted value.",
+   note="sampled documents (depth <= 3); numbers that are not small exact values are marked approx and left to C09; lone surrogates not generated.",
+   technique="TLA+ JSON grammar with denotation; TLC batch oracle over recorded parse results; TLC-checked parser transcription",
+   design="6 (C06)"),
+ "C07": dict(
+   text="The property's quantifier is first made a TLC-checked fact about the grammar specification (no proper prefix of a container "
+        "document, no document plus a non-whitespace unit, no document with a structural closing bracket swapped or removed is a "
+        "document; every text <= 6/7). AllOrNothing is checked on the parser transcription for the same texts. The real parser is then "
+        "run on every enumerated text and, for random documents, on all |D| cuts, suffixes and bracket mutations; TLC judges that anything "
+        "accepted is a document of the grammar and contains no Undefined.",
+   note="bounded enumeration + sampled documents; leniencies outside the listed families (raw control characters in strings, \\U, hex numerals) are not generated.",
+   technique="TLC-checked grammar facts + parser transcription (AllOrNothing); TLC batch oracle over cuts / suffixes / bracket mutations of generated documents",
+   design="6 (C07)"),
+ "C08": dict(
+   text="Random trees built through the public Value API (removed members, Undefined slots and members, empty containers, strings and keys "
+        "with NUL / controls / quote / backslash / slash / DEL / non-ASCII, 64-bit extremes, reals k/2) are stringified with precision 17 "
+        "into a non-empty stream, parsed back and stringified again in three character widths. TLC, with the independent TLA+ grammar as "
+        "the reader of the text, judges every event: the text is a document, denotes Norm(tree), the library reads it back to the same "
+        "tree, the second stringification is identical, and only the tail of the caller's stream changed.",
+   note="sampled trees (depth <= 3); number formatting itself belongs to C10/C11; values are compared as JSON numbers (3.0 may come back as 3).",
+   technique="TLA+ JSON grammar as independent reader; TLC batch oracle over recorded stringify/parse/stringify events",
+   design="6 (C08)"),
 }
 PENDING = "not yet claimed in this revision: its specification and conformance harness are still being built (DESIGN.md section 6 describes the plan)"
 m = {
